@@ -57,7 +57,15 @@ Paths(r, s, i, caps, F) ==
     [] r.k = "bref" -> IF caps[r.n] = Unset THEN {<<i, caps>>}
                        ELSE IF SubEq(s, caps[r.n][1], caps[r.n][2], i, F)
                             THEN {<<i + caps[r.n][2] - caps[r.n][1], caps>>} ELSE {}
-    [] r.k = "rep"  -> RepPaths(r, s, {<<i, caps>>}, 0, {}, {}, F)
+    [] r.k = "rep"  ->
+         (* Counts beyond the length of the input are clamped: at most Len(s) iterations consume anything, so a   *)
+         (* path with more than Len(s)+1 iterations contains an iteration that consumes nothing, which can be     *)
+         (* repeated or dropped freely (sound for the positions reached; where captures or back-references could  *)
+         (* notice, the pattern is not Strict and those are UNSPEC).  Keeps a{1,65535} and (?:^|a){4294967} cheap. *)
+         LET L  == Len(s) + 1
+             mn == IF r.min > L THEN L ELSE r.min
+             mx == IF r.max = -1 THEN -1 ELSE mn + (IF r.max - r.min > L THEN L ELSE r.max - r.min)
+         IN RepPaths([r EXCEPT !.min = mn, !.max = mx], s, {<<i, caps>>}, 0, {}, {}, F)
 SeqPaths(xs, x, s, S, F) ==
   IF x > Len(xs) \/ S = {} THEN S
   ELSE SeqPaths(xs, x+1, s, UNION {Paths(xs[x], s, st[1], st[2], F) : st \in S}, F)
